@@ -420,6 +420,8 @@ def run_real(case):
                         setattr(tgt, st['key'], v)
                 elif op == 'del':
                     del tgt[st['key']]
+                elif op == 'update':
+                    tgt.update({k: build(v, world) for k, v in st['items']})
                 elif op == 'clear':
                     tgt.clear()
                 elif op == 'setidx':
@@ -446,6 +448,10 @@ def run_real(case):
                     tgt.reverse()
                 else:
                     raise AssertionError(op)
+                out.append('ok')
+            elif do == 'rebuild':
+                src = resolve_real(world, st['src'])
+                world[st['dst']] = type(src)(**{p: getattr(src, p) for p in src._params})
                 out.append('ok')
             elif do == 'rnew':
                 how = st['how']
@@ -477,6 +483,20 @@ def run_real(case):
                 out.append('ok')
             elif do == 'snap':
                 out.append(canon(walk_world(world)))
+                if 'tag' in st and case['kind'] == 'indep':
+                    # membership answers of every pixel region at a few fixed points
+                    from regions import PixelRegion
+                    ans = {}
+                    for name, o in world.items():
+                        if isinstance(o, PixelRegion):
+                            try:
+                                bb = o.bounding_box
+                                cx, cy = (bb.ixmin + bb.ixmax) / 2.0, (bb.iymin + bb.iymax) / 2.0
+                                pts = PixCoord([cx, cx + 0.5, bb.ixmin - 3.0, cx], [cy, cy - 0.5, cy, bb.iymax + 3.0])
+                                ans[name] = [bool(v) for v in np.atleast_1d(o.contains(pts)).tolist()]
+                            except Exception as e:
+                                ans[name] = type(e).__name__
+                    extra.setdefault('contains', {})[st['tag']] = ans
                 if 'tag' in st:
                     extra[st['tag']] = {name: sorted(reach(o)) for name, o in world.items()}
                     b = world.get('b')
@@ -536,7 +556,7 @@ def to_model_steps(st, real_out):
             # Regions(other): a new object around a new list of the same regions
             return [{'do': 'rcopy', 'src': st['src'], 'dst': st['dst']}]
         return [empty]
-    if do in ('deepcopy', 'eq', 'ne', 'slice', 'rcopy', 'item', 'snap'):
+    if do in ('deepcopy', 'eq', 'ne', 'slice', 'rcopy', 'item', 'snap', 'rebuild'):
         return [{k: v for k, v in st.items() if k != 'tag'}]
     if do == 'mut':
         at = st['at']
@@ -546,6 +566,9 @@ def to_model_steps(st, real_out):
         m = {'do': 'mut', 'at': at, 'op': op}
         if op == 'extendfrom':
             return [dict(m, src=st['src'])]
+        if op == 'update':
+            # Meta.update: one __setitem__ per key, in order (it stops at the first invalid key)
+            return [{'do': 'mut', 'at': at, 'op': 'set', 'key': k, 'val': model_val(v)} for k, v in st['items']]
         if op in ('iadd', 'setitem', 'delitem'):
             # list-protocol operations on the Regions OBJECT itself (not on its list)
             tgt = st['at']
@@ -921,9 +944,21 @@ class Check(PropertyCheck):
                                     cases.append(self.gen_eq(g, cls, 'unitsweep', rng.choice(qfields + [None]),
                                                              (ua, ub, nn), descend=False))
                 if cls.startswith('Compound'):
+                    for _ in range(6):
+                        cases.append(self.gen_copy(g, cls, plain=True))
+                for _ in range(3):
+                    cases.append(self.gen_indep(g, cls))
+                if cls.startswith('Compound'):
                     # perturbations of a field of a nested operand (any depth)
                     for _ in range(12):
                         cases.append(self.gen_eq(g, cls))
+        import regions as _rg
+        pairs = [(A, B) for A in ALL for B in ALL
+                 if A != B and issubclass(getattr(_rg, B), getattr(_rg, A))]
+        for _ in range(8 if tier == 'quick' else 120):
+            for (A, B) in pairs:
+                for swap in (False, True):
+                    cases.append(self.gen_subclass(g, A, B, swap))
         for _ in range(2 if tier == 'quick' else 20):
             for sym in DS9_SYMBOLS:
                 cases.append(self.gen_parsed_copy(g, sym))
@@ -977,8 +1012,8 @@ class Check(PropertyCheck):
         if kind == 'skyarr':
             return {'do': 'mut', 'at': at, 'op': 'skyset', 'idx': r.randrange(info),
                     'lon': fl(r.randint(0, 2800) / 8.0), 'lat': fl(r.randint(-700, 700) / 8.0)}
-        if kind in ('rmeta', 'rvisual'):
-            keys = META_KEYS if kind == 'rmeta' else VIS_KEYS
+        if kind in ('rmeta', 'rvisual', 'dict'):
+            keys = META_KEYS if path[-1] == 'meta' else VIS_KEYS
             have = [k for k, _ in info['v']]
             c = r.random()
             if c < 0.5:
@@ -1003,9 +1038,15 @@ class Check(PropertyCheck):
             return {'do': 'mut', 'at': at, 'op': 'setidx', 'idx': 0, 'val': {'t': 'str', 'v': g.word()}}
         raise AssertionError(kind)
 
-    def gen_copy(self, g, cls, marker=None):
+    def gen_copy(self, g, cls, marker=None, plain=False):
         r = g.rng
         spec = g.region(cls)
+        if plain:
+            # compounds keep a plain dict exactly as given: nested lists inside must still be copied
+            spec['meta'] = {'t': 'dict', 'v': [['tag', {'t': 'list', 'v': [{'t': 'str', 'v': g.word()} for _ in range(r.randint(1, 3))]}],
+                                               ['label', {'t': 'str', 'v': g.word()}]]}
+            spec['visual'] = {'t': 'dict', 'v': [['dashlist', {'t': 'list', 'v': [{'t': 'int', 'v': r.randint(1, 9)} for _ in range(2)]}],
+                                                 ['color', {'t': 'str', 'v': g.word()}]]}
         if marker is not None:
             tgt = spec
             if spec.get('visual') is None:              # compound with default visual: use region1's
@@ -1051,12 +1092,87 @@ class Check(PropertyCheck):
             for k, v in changes:
                 changed.append(k)
             side = r.choice(['b', 'b', 'b', 'a'])
+            if plain:
+                side = r.choice(['a', 'b'])
+                if 'meta' not in changed:
+                    prog.append({'do': 'mut', 'at': {'root': side, 'path': ['meta', 'tag']}, 'op': r.choice(['append', 'setidx']),
+                                 'idx': 0, 'val': {'t': 'str', 'v': 'nested edit'}})
+                if 'visual' not in changed:
+                    prog.append({'do': 'mut', 'at': {'root': side, 'path': ['visual', 'dashlist']}, 'op': r.choice(['append', 'setidx']),
+                                 'idx': 1, 'val': {'t': 'int', 'v': 77}})
             for _ in range(r.randint(1, 8)):
                 prog.append(self.gen_mut(g, side, sb, changed=changed if side == 'b' else ()))
             prog.append({'do': 'snap', 'tag': 'after_mut'})
             prog.append({'do': 'eq', 'a': {'root': 'a', 'path': []}, 'b': {'root': 'b', 'path': []}})
         return {'kind': 'copy', 'how': how, 'cls': cls, 'side': None if bogus else side, 'prog': prog,
                 'changed': [k for k, _ in changes]}
+
+    # -- a region against a region of a derived class that agrees on every shared parameter
+    def gen_subclass(self, g, base, derived, swap):
+        d = g.region(derived)
+        names = [n for n, _ in ALL[base]]
+        dn = [n for n, _ in ALL[derived]]
+        if all(n in dn for n in names):
+            params = [[n, json.loads(json.dumps(get_param(d, n)))] for n in names]
+        elif base == 'PolygonPixelRegion':
+            real = build(d, {})                       # the vertices the derived class computed
+            params = [['vertices', {'t': 'pixarr', 'x': [fl(v) for v in real.vertices.x.tolist()],
+                                    'y': [fl(v) for v in real.vertices.y.tolist()]}]]
+        else:
+            raise AssertionError((base, derived))
+        b = {'t': 'region', 'cls': base, 'params': params,
+             'meta': json.loads(json.dumps(d.get('meta'))), 'visual': json.loads(json.dumps(d.get('visual')))}
+        x, y = (b, d) if swap else (d, b)
+        ra, rb = {'root': 'a', 'path': []}, {'root': 'b', 'path': []}
+        prog = [{'do': 'new', 'dst': 'a', 'val': x}, {'do': 'new', 'dst': 'b', 'val': y},
+                {'do': 'eq', 'a': ra, 'b': rb}, {'do': 'eq', 'a': rb, 'b': ra},
+                {'do': 'ne', 'a': ra, 'b': rb}, {'do': 'ne', 'a': rb, 'b': ra},
+                {'do': 'eq', 'a': ra, 'b': ra}, {'do': 'eq', 'a': rb, 'b': rb}, {'do': 'snap'}]
+        return {'kind': 'eq', 'cls': x['cls'], 'prog': prog,
+                'info': {'what': 'subclass', 'path': [], 'tcls': y['cls'], 'mode': f'{base}<{derived}'}}
+
+    # -- instances built WITHOUT meta / visual must not share the defaults
+    def gen_indep(self, g, cls):
+        r = g.rng
+        spec = g.region(cls)
+        spec['meta'] = None
+        spec['visual'] = None
+        if cls.startswith('Compound'):
+            # the operands' own meta stay; the compound's default meta IS region1.meta (by design)
+            pass
+        n = r.choice([2, 3])
+        names = ['a', 'b', 'c'][:n]
+        prog = []
+        for i, nm in enumerate(names):
+            if i > 0 and r.random() < 0.3 and not cls.startswith('Compound'):
+                # reconstruction from the parameters of `a` (the parameter objects are shared on purpose)
+                prog.append({'do': 'rebuild', 'src': {'root': 'a', 'path': []}, 'dst': nm})
+            else:
+                prog.append({'do': 'new', 'dst': nm, 'val': json.loads(json.dumps(spec))})
+        ref = lambda nm: {'root': nm, 'path': []}
+        prog += [{'do': 'eq', 'a': ref('a'), 'b': ref('b')}, {'do': 'eq', 'a': ref(names[-1]), 'b': ref('b')},
+                 {'do': 'snap', 'tag': 'before'}]
+        victim = r.choice(names)
+        for _ in range(r.randint(1, 5)):
+            which = r.choice(['meta', 'visual'])
+            at = {'root': victim, 'path': [which]}
+            keys = META_KEYS if which == 'meta' else VIS_KEYS
+            c = r.random()
+            if c < 0.4:
+                k = 'include' if which == 'meta' and r.random() < 0.5 else r.choice(keys)
+                v = {'t': 'bool', 'v': False} if k == 'include' else g.metaval(k)
+                prog.append({'do': 'mut', 'at': at, 'op': 'set', 'key': k, 'val': v})
+            elif c < 0.65:
+                ks = r.sample(keys, 2)
+                prog.append({'do': 'mut', 'at': at, 'op': 'update', 'items': [[k, g.metaval(k)] for k in ks]})
+            elif c < 0.85:
+                prog.append({'do': 'mut', 'at': at, 'op': 'del', 'key': r.choice(keys)})
+            else:
+                prog.append({'do': 'mut', 'at': at, 'op': 'clear'})
+        others = [nm for nm in names if nm != victim]
+        prog += [{'do': 'snap', 'tag': 'after'},
+                 {'do': 'eq', 'a': ref(others[0]), 'b': ref(others[-1])}]
+        return {'kind': 'indep', 'how': f'{n}', 'cls': cls, 'side': victim, 'prog': prog, 'names': names}
 
     # -- regions that come out of the DS9 reader, one per point symbol
     def gen_parsed_copy(self, g, sym):
@@ -1559,6 +1675,19 @@ class Check(PropertyCheck):
             qb = [getattr(world['b'], f) for f in case['info']['fields']]
             obs['bare_ab'] = all(bool(x == y) for x, y in zip(qa, qb))
             obs['bare_ba'] = all(bool(y == x) for x, y in zip(qa, qb))
+        if case['kind'] == 'indep':
+            snaps = {st['tag']: o for o, st in zip(out, case['prog']) if st['do'] == 'snap' and isinstance(o, list)}
+            obs['contains'] = extra.get('contains', {})
+            if 'before' in snaps and 'after' in snaps:
+                s0, s1 = dict(snaps['before']), dict(snaps['after'])
+                obs['unchanged'] = {nm: erase(s0[nm]) == erase(s1[nm]) for nm in case['names'] if nm in s0 and nm in s1}
+                # the meta / visual OBJECTS of different instances must be different objects
+                mv = {}
+                for nm in case['names']:
+                    if nm in s0:
+                        f = dict(s0[nm]['f'])
+                        mv[nm] = (f['meta']['id'], f['visual']['id'])
+                obs['meta_ids'] = mv
         if case['kind'] in ('regions', 'lists'):
             obs['leaks'] = extra.get('leaks', [])[:5]
             obs['shared'] = extra.get('shared', [])[:5]
@@ -1700,7 +1829,7 @@ class Check(PropertyCheck):
                 expect = True
             elif what == 'marker':
                 expect = False
-            elif what in ('meta', 'visual', 'class'):
+            elif what in ('meta', 'visual', 'class', 'subclass'):
                 expect = False
             elif what == 'param':
                 mode = info.get('mode')
@@ -1721,6 +1850,24 @@ class Check(PropertyCheck):
             if expect is False and ab is not False:
                 bad('eq_misses_difference', f'{what}/{info.get("mode")}/{info.get("field", info.get("key"))}: '
                     f'expected unequal, a==b {ab}', mode=info.get('mode'), na=info.get('na'), nb=info.get('nb'))
+        if case['kind'] == 'indep':
+            victim = case['side']
+            for nm, same in obs.get('unchanged', {}).items():
+                if nm != victim and not same:
+                    bad('default_state_shared', f'editing {victim}.meta/.visual changed the independently built {nm}')
+            mv = obs.get('meta_ids', {})
+            if not case['cls'].startswith('Compound'):
+                for x in mv:
+                    for y in mv:
+                        if x < y and (mv[x][0] == mv[y][0] or mv[x][1] == mv[y][1]):
+                            bad('default_state_shared', f'{x}.meta is {y}.meta (or visual): instances share a default object')
+            cb, ca = obs.get('contains', {}).get('before', {}), obs.get('contains', {}).get('after', {})
+            for nm in cb:
+                if nm != victim and nm in ca and cb[nm] != ca[nm]:
+                    bad('default_state_shared', f'contains() of {nm} changed {cb[nm]} -> {ca[nm]} after editing {victim}')
+            e0 = out[len(case['names']) + 1]            # names[-1] == b before the edits
+            if case['side'] not in (case['names'][-1], 'b') and isinstance(out[-1], bool) and e0 is True and out[-1] is not True:
+                bad('default_state_shared', 'two untouched instances stopped being equal')
         if case['kind'] in ('regions', 'lists'):
             for msg in obs.get('leaks', []):
                 bad('list_edit_leaked', 'an edit of one Regions object changed another: ' + msg)
